@@ -2095,10 +2095,17 @@ class Process:
                     # of the name; what follows is the file name, trailing
                     # blanks included.
                     path = decode(path)
-                    if path.endswith(' (deleted)') and not path_exists_strict(
-                        path
-                    ):
-                        path = path[:-10]
+                    if path.endswith(' (deleted)'):
+                        # The kernel's marker of an unlinked file, unless a
+                        # file of that very name can be shown to exist. A
+                        # PermissionError of the probe says nothing about
+                        # the process: it must not fail the whole listing.
+                        try:
+                            marked_exists = path_exists_strict(path)
+                        except PermissionError:
+                            marked_exists = False
+                        if not marked_exists:
+                            path = path[:-10]
                 item = (
                     decode(addr),
                     decode(perms),
